@@ -373,3 +373,18 @@ Proof.
   cbn [p_nicks p_tables heap k_p_nicks k_p_tables k_heap]. splits; try reflexivity.
   intros h cl Hc. eapply clean_handles_ext; eassumption.
 Qed.
+
+(* ------------------------------------------------------------------ which row a name denotes between iterations *)
+
+(* Globals.object_names, "later overrides earlier": once the per-iteration names are gone (a new
+   iteration, a continued run), a name that is both the table of a just_once row and the nickname of
+   another denotes the row of the TABLE, as it did in the iteration that created them. *)
+Lemma persistent_table_entry_wins s n h :
+  lookup n (last_by_table s) = None -> lookup n (nick_objs s) = None ->
+  lookup n (p_tables s) = Some h -> object_name s n = Some (VRow h).
+Proof. intros H1 H2 H3. unfold object_name. rewrite H1, H2, H3. reflexivity. Qed.
+
+Lemma persistent_nickname_entry_last s n h :
+  lookup n (last_by_table s) = None -> lookup n (nick_objs s) = None -> lookup n (p_tables s) = None ->
+  lookup n (p_nicks s) = Some h -> object_name s n = Some (VRow h).
+Proof. intros H1 H2 H3 H4. unfold object_name. rewrite H1, H2, H3, H4. reflexivity. Qed.
